@@ -350,7 +350,9 @@ def judge_batch(ctx, env, spec, out, acts, sampled, drv, K, T, succ):
         j = judge(om, X)
         ctx.monitor("observations_checked", j["N"])
         ctx.monitor(f"observations_checked_{sname}", j["N"])
-        suffix = "" if sname != "episode-end-successor" else "-at-episode-end-successor"
+        # an observation wrapper maps successors exactly as it maps every other state: same mechanism, same key;
+        # a base env whose *terminal* states leave its own box is a mechanism of its own
+        suffix = "-at-episode-end-successor" if (sname == "episode-end-successor" and own_o == base) else ""
         if j["structural"]:
             ctx.violation(f"{own_o}-obs-not-of-declared-shape-or-dtype{suffix}",
                           {"stack": name, "stream": sname, "problem": j["structural"], "spec": spec})
